@@ -281,4 +281,160 @@ theorem c17_iii_lowerBound (s : State) (h : inv s = true) (hsc : inScope s = tru
       omega
   · rw [hn']; simp only [optSpec]; omega
 
+
+/-! ## The invariant `I` -/
+
+/-- The closed system: controller syncs alternate with environment steps and user actions. -/
+inductive Step : State → State → Prop
+  /-- one `syncDeployment` -/
+  | sync (s : State) : Step s (post s)
+  /-- ReplicaSet controller / kubelet: pods move toward spec, availability changes (also flaps) -/
+  | env {s t : State} : EnvStep s t → Step s t
+  /-- scale event -/
+  | scale (s : State) (n : Int) : 0 ≤ n → Step s { s with replicas := n }
+  /-- partition change (raise or otherwise) -/
+  | partition (s : State) (p : IntOrPct) : Step s { s with partition := p }
+  /-- pause / resume -/
+  | pause (s : State) (b : Bool) : Step s { s with paused := b }
+  /-- new revision: the current new RS becomes an old one -/
+  | newRevision (s : State) : Step s { s with new := none, olds := s.olds ++ s.new.toList }
+  /-- rollback: an old RS becomes the new one -/
+  | rollback (s : State) (l₁ l₂ : List RS) (r : RS) : s.olds = l₁ ++ r :: l₂ →
+      Step s { s with new := some r, olds := l₁ ++ l₂ ++ s.new.toList }
+
+inductive Reach (s₀ : State) : State → Prop
+  | refl : Reach s₀ s₀
+  | step {s t : State} : Reach s₀ s → Step s t → Reach s₀ t
+
+/-- **`I` is preserved by a sync** — every path of `syncDeployment`: rolling, scaling, status only. -/
+theorem inv_sync (s : State) (h : inv s = true) : inv (post s) = true := inv_post s h
+
+/-- **`I` is preserved by the environment.** -/
+theorem inv_env (s t : State) (h : inv s = true) (he : EnvStep s t) : inv t = true := env_inv s t h he
+
+/-- **`I` is inductive**: preserved by every step of the closed system. -/
+theorem inv_step (s t : State) (h : inv s = true) (hs : Step s t) : inv t = true := by
+  obtain ⟨h1, h2, h3, h4, h5, h6, h7, h8⟩ := inv_elim s h
+  obtain ⟨q1, q2⟩ := Q_all_of_inv s h
+  cases hs with
+  | sync => exact inv_post s h
+  | env he => exact env_inv s t h he
+  | scale n hn => exact inv_intro _ hn h2 h3 h4 h5 h6 h7 h8
+  | partition p => exact inv_intro _ h1 h2 h3 h4 h5 h6 h7 h8
+  | pause b => exact inv_intro _ h1 h2 h3 h4 h5 h6 h7 h8
+  | newRevision =>
+    have hq : ∀ r ∈ s.olds ++ s.new.toList, Q r := append_all q1 (toList_Q q2)
+    exact inv_intro _ h1 h2 h3 (fun r hr => (hq r hr).1) (fun r hr => by cases hr) h6
+      (fun r hr => (hq r hr).2) (fun r hr => by cases hr)
+  | rollback l₁ l₂ r he =>
+    have hr : Q r := q1 r (by rw [he]; simp)
+    have hq : ∀ x ∈ l₁ ++ l₂ ++ s.new.toList, Q x := by
+      apply append_all _ (toList_Q q2)
+      intro x hx
+      apply q1 x
+      rw [he]
+      rcases List.mem_append.mp hx with e | e
+      · simp [e]
+      · simp [e]
+    exact inv_intro _ h1 h2 h3 (fun x hx => (hq x hx).1)
+      (fun x hx => by simp only [Option.some.injEq] at hx; rw [← hx]; exact hr.1) h6
+      (fun x hx => (hq x hx).2)
+      (fun x hx => by simp only [Option.some.injEq] at hx; rw [← hx]; exact hr.2)
+
+/-- `I` holds in every reachable state. -/
+theorem inv_reach (s₀ s : State) (h : inv s₀ = true) (hr : Reach s₀ s) : inv s = true := by
+  induction hr with
+  | refl => exact h
+  | step _ hs ih => exact inv_step _ _ ih hs
+
+/-- Safety of every reachable sync: all unconditional clauses hold for every sync from every state
+    reachable from a state satisfying `I`. -/
+theorem c17_reachable (s₀ s : State) (h : inv s₀ = true) (hr : Reach s₀ s) :
+    clauseII s (post s) = true ∧ clauseIIup s (post s) = true ∧ clauseI0 s (post s) = true ∧
+    clauseIVbudget s (post s) = true ∧
+    (lowerBoundRegion s = false → clauseI s (post s) = true ∧ clauseIII s (post s) = true) ∧
+    (stale s = false → clauseIV s (post s) = true) := by
+  have hi := inv_reach s₀ s h hr
+  exact ⟨c17_ii s hi, c17_ii_up s hi, c17_i0 s hi, c17_iv_budget s hi,
+    fun hg => ⟨c17_i_partial s hi hg, c17_iii_partial s hi hg⟩, fun hg => c17_iv_partial s hi hg⟩
+
+/-! ## (v) Convergence when the partition covers all replicas -/
+
+/-- **C17 (v), variant never increases**: under `live` (I, rolling path, covering partition, live
+    fenceposts) a sync does not increase the variant, and `live` is kept. -/
+theorem c17_v_sync (s : State) (h : live s = true) :
+    live (post s) = true ∧ variant (post s) ≤ variant s := by
+  obtain ⟨i0, sc0, cv0, _⟩ := live_elim _ h
+  exact ⟨live_post s h, (variant_post_le s i0 sc0 cv0).1⟩
+
+/-- **C17 (v), environment steps** keep `live` and the variant. -/
+theorem c17_v_env (s t : State) (h : live s = true) (he : EnvStep s t) :
+    live t = true ∧ variant t = variant s := ⟨env_live s t h he, env_variant s t he⟩
+
+/-- **C17 (v), progress**: from a settled, non-final state a sync strictly decreases the variant —
+    there is no stuck non-final state. -/
+theorem c17_v_progress (s : State) (h : live s = true) (hs : settled s = true) (hf : final s = false) :
+    variant (post s) < variant s := by
+  obtain ⟨i0, sc0, cv0, l0⟩ := live_elim _ h
+  exact variant_post_lt s i0 sc0 cv0 l0 hs hf
+
+/-- the variant is 0 exactly in the final states (new RS = replicas, old RSs = 0) -/
+theorem c17_v_final (s : State) (h : inv s = true) : variant s = 0 ↔ final s = true :=
+  variant_zero_iff s h
+
+/-- **C17 (v), healthy schedule**: alternating syncs with a ReplicaSet controller that catches up
+    (`round`), the Deployment reaches new = replicas ∧ old = 0 within `variant s + 1` rounds. -/
+theorem c17_v_rounds (s : State) (h : live s = true) : final (rounds (variant s + 1) s) = true := by
+  obtain ⟨l1, s1, v1⟩ := live_round s h
+  exact rounds_converge (variant s) (round s) l1 s1 v1
+
+/-- a run of the closed system restricted to syncs and environment steps -/
+def IsRun (σ : Nat → State) : Prop := ∀ i, σ (i + 1) = post (σ i) ∨ EnvStep (σ i) (σ (i + 1))
+/-- fairness + healthy environment: again and again the ReplicaSet controller catches up and a sync
+    runs on the settled state -/
+def Fair (σ : Nat → State) : Prop := ∀ i, ∃ j, i ≤ j ∧ settled (σ j) = true ∧ σ (j + 1) = post (σ j)
+
+/-- **C17 (v), any fair schedule**: every fair run from a `live` state reaches a final state. -/
+theorem c17_v_fair (σ : Nat → State) (h0 : live (σ 0) = true) (hrun : IsRun σ) (hfair : Fair σ) :
+    ∃ k, final (σ k) = true := by
+  have hlive : ∀ i, live (σ i) = true := by
+    intro i
+    induction i with
+    | zero => exact h0
+    | succ i ih =>
+      rcases hrun i with e | e
+      · rw [e]; exact live_post _ ih
+      · exact env_live _ _ ih e
+  have hstep : ∀ i, variant (σ (i + 1)) ≤ variant (σ i) := by
+    intro i
+    rcases hrun i with e | e
+    · rw [e]; exact (c17_v_sync _ (hlive i)).2
+    · rw [env_variant _ _ e]; exact Nat.le_refl _
+  have hmono : ∀ i j, i ≤ j → variant (σ j) ≤ variant (σ i) := by
+    intro i j hij
+    induction j with
+    | zero => have : i = 0 := by omega
+              rw [this]; exact Nat.le_refl _
+    | succ j ih =>
+      by_cases he : i = j + 1
+      · rw [he]; exact Nat.le_refl _
+      · have := ih (by omega); have := hstep j; omega
+  have key : ∀ n i, variant (σ i) ≤ n → ∃ k, final (σ k) = true := by
+    intro n
+    induction n with
+    | zero =>
+      intro i hv
+      exact ⟨i, (variant_zero_iff _ (live_elim _ (hlive i)).1).mp (by omega)⟩
+    | succ n ih =>
+      intro i hv
+      obtain ⟨j, hij, hs, hp⟩ := hfair i
+      cases hf : final (σ j) with
+      | true => exact ⟨j, hf⟩
+      | false =>
+        have h1 := c17_v_progress _ (hlive j) hs hf
+        have h2 := hmono i j hij
+        rw [← hp] at h1
+        exact ih (j + 1) (by omega)
+  exact key _ 0 (Nat.le_refl _)
+
 end RV.Props.C17
